@@ -257,19 +257,21 @@ Qed.
    by a compression pointer to an offset where the REST of the name is encoded (at most `d` pointers in a row are
    followed); `e` is the offset behind the part stored in line. A pointer's target must denote at least one label
    (see C37_name_ptr_to_root_refuted for what happens otherwise). *)
-Inductive name_at (buf : bytes) : nat -> N -> list bytes -> N -> Prop :=
-| na_root : forall d off, nthN off buf = Some 0 -> name_at buf d off [] (off + 1)
+Inductive name_at_gen (strict : bool) (buf : bytes) : nat -> N -> list bytes -> N -> Prop :=
+| na_root : forall d off, nthN off buf = Some 0 -> name_at_gen strict buf d off [] (off + 1)
 | na_label : forall d off l rest e,
     1 <= lenN l -> lenN l <= 63 ->
     nthN off buf = Some (lenN l) ->
     rd_range buf (off + 1) (lenN l) = Some l ->
-    name_at buf d (off + 1 + lenN l) rest e ->
-    name_at buf d off (l :: rest) e
+    name_at_gen strict buf d (off + 1 + lenN l) rest e ->
+    name_at_gen strict buf d off (l :: rest) e
 | na_ptr : forall d off a b labels e',
     nthN off buf = Some a -> 191 < a -> nthN (off + 1) buf = Some b ->
-    labels <> [] ->
-    name_at buf d ((a * 256 + b) mod 16384) labels e' ->
-    name_at buf (S d) off labels (off + 2).
+    (strict = true -> labels <> []) ->
+    name_at_gen strict buf d ((a * 256 + b) mod 16384) labels e' ->
+    name_at_gen strict buf (S d) off labels (off + 2).
+(* strict = false is the plain RFC 1035 reading, in which a pointer may also lead to the root label *)
+Definition name_at := name_at_gen true.
 
 (* octets the labels occupy in a name buffer / on the wire without the root: sum of (length + 1) *)
 Fixpoint wire (labels : list bytes) : N :=
@@ -278,7 +280,7 @@ Fixpoint wire (labels : list bytes) : N :=
 Fixpoint dotted (labels : list bytes) : bytes :=
   match labels with [] => [] | l :: r => l ++ [46] ++ dotted r end.
 
-Lemma name_at_start buf d off labels e : name_at buf d off labels e -> off < lenN buf.
+Lemma name_at_start st buf d off labels e : name_at_gen st buf d off labels e -> off < lenN buf.
 Proof. intros H. destruct H; eapply nthN_in_range; eassumption. Qed.
 
 Lemma removelast_app_dot (a : bytes) : removelast (a ++ [46]) = a.
@@ -311,7 +313,7 @@ Lemma name_loop_decodes : forall buf d off labels e,
     name_loop fuel buf (lenN buf) off rdl acc no ns cap rdepth =
     Ok (name_result acc no labels, e, rdl + wire labels).
 Proof.
-  intros buf d off labels e H.
+  intros buf d off labels e H. unfold name_at in H.
   induction H as [d off Hc | d off l rest e Hl1 Hl2 Hc Hr Hrest IH | d off a b labels e' Ha Hgt Hb Hne Htgt IH];
     intros fuel rdl acc no ns cap rdepth Hfit Hcap Hdepth Hrdl Hfuel;
     (destruct fuel as [|f]; [lia|]); cbn [name_loop].
@@ -328,7 +330,7 @@ Proof.
     + destruct (cap <? no) eqn:Ec; [lia|]. destruct (ns <? no) eqn:Ec2; [lia|]. repeat f_equal; lia.
   - (* a label *)
     pose proof (nthN_in_range _ _ _ Hc) as Hin.
-    pose proof (name_at_start _ _ _ _ _ Hrest) as Hnext.
+    pose proof (name_at_start _ _ _ _ _ _ Hrest) as Hnext.
     destruct (lenN buf <=? off) eqn:E0; [lia|]. rewrite Hc.
     cbn [wire] in *.
     destruct (191 <? lenN l) eqn:E1; [lia|].
@@ -352,7 +354,8 @@ Proof.
       rewrite !app_assoc. reflexivity.
   - (* a compression pointer *)
     pose proof (nthN_in_range _ _ _ Hb) as Hin.
-    pose proof (name_at_start _ _ _ _ _ Htgt) as Hp.
+    pose proof (name_at_start _ _ _ _ _ _ Htgt) as Hp.
+    specialize (Hne eq_refl).
     destruct (lenN buf <=? off) eqn:E0; [lia|]. rewrite Ha.
     destruct (191 <? a) eqn:Eg; [|lia].
     destruct (64 <? rdepth) eqn:E1; [lia|].
@@ -379,4 +382,554 @@ Proof.
   replace (0 + wire labels) with (wire labels) by lia.
   unfold name_result. destruct labels as [|l r]; [reflexivity|].
   rewrite (removelast_dotted [] l r). reflexivity.
+Qed.
+
+(* the restriction on pointer targets is necessary: labels followed by a pointer to a root label keep their dot *)
+Definition quirk_buf : bytes := [22;246;129;128;0;1;0;0;0;0;0;0; 3;119;119;119;192;4; 0;1;0;1].
+
+Theorem name_ptr_to_root_refuted :
+  exists buf d off labels e,
+    name_at_gen false buf d off labels e /\ (d <= 65)%nat /\ wire labels < 256 /\
+    name_unpack buf (lenN buf) off 256 256 0 = Ok (join_dots labels ++ [46], e, wire labels) /\
+    message_unpack buf = Ok (UAnswers (mkHdr 5878 1 0 0 0 1 1 0 1 0 0 0) (mkQ (join_dots labels ++ [46]) 1 1) []).
+Proof.
+  exists quirk_buf, 1%nat, 12, [[119;119;119]], 18.
+  split.
+  { apply na_label with (l := [119;119;119]); try (cbn; lia); try reflexivity.
+    apply (na_ptr false quirk_buf 0 16 192 4 [] 5); try reflexivity; [discriminate|].
+    apply (na_root false quirk_buf 0 4). reflexivity. }
+  split; [lia|]. split; [reflexivity|]. split; vm_compute; reflexivity.
+Qed.
+
+(* ================= Part C: messages laid out in a datagram decode to what was encoded ================= *)
+(* the text form is a C string (no NUL octet inside a label) *)
+Definition text_ok (labels : list bytes) : Prop := cstr (join_dots labels) = join_dots labels.
+
+Definition header_wf (h : header) : Prop :=
+  h_id h < 65536 /\ h_qr h < 2 /\ h_opcode h < 16 /\ h_aa h < 2 /\ h_tc h < 2 /\ h_rd h < 2 /\ h_ra h < 2 /\
+  h_rcode h < 16 /\ h_qd h < 65536 /\ h_an h < 65536 /\ h_ns h < 65536 /\ h_ar h < 65536.
+
+(* header with the reserved Z bits set to z *)
+Definition enc_header_z (h : header) (z : N) : bytes :=
+  be16 (h_id h) ++
+  be16 (h_qr h * 32768 + h_opcode h * 2048 + h_aa h * 1024 + h_tc h * 512 + h_rd h * 256 + h_ra h * 128 + z * 16 + h_rcode h) ++
+  be16 (h_qd h) ++ be16 (h_an h) ++ be16 (h_ns h) ++ be16 (h_ar h).
+
+Definition hdr_at (buf : bytes) (h : header) : Prop :=
+  header_wf h /\ exists z, z < 8 /\ takeN 12 buf = enc_header_z h z.
+
+Definition rr_at (buf : bytes) (off : N) (r : rr) (off' : N) : Prop :=
+  exists d labels e rdlen,
+    name_at buf d off labels e /\ (d <= 65)%nat /\ wire labels < 256 /\ text_ok labels /\
+    rr_name r = join_dots labels /\
+    rd16 buf e = Some (rr_type r) /\ rd16 buf (e + 2) = Some (rr_class r) /\
+    rd32 buf (e + 4) = Some (rr_ttl r) /\ rd16 buf (e + 8) = Some rdlen /\
+    off' = e + 10 + rdlen /\ off' <= lenN buf /\
+    if rr_type r =? dns_TYPE_PTR then
+      exists pd pl pe, name_at buf pd (e + 10) pl pe /\ (pd <= 65)%nat /\ wire pl < 256 /\ text_ok pl /\
+        pe <= off' /\ rr_rdata r = join_dots pl /\ rr_rdlength r = wire pl
+    else rd_range buf (e + 10) rdlen = Some (rr_rdata r) /\ rr_rdlength r = rdlen.
+
+Inductive rrs_at (buf : bytes) : N -> list rr -> N -> Prop :=
+| rrs_at_nil : forall off, rrs_at buf off [] off
+| rrs_at_cons : forall off r off1 rest off2,
+    rr_at buf off r off1 -> rrs_at buf off1 rest off2 -> rrs_at buf off (r :: rest) off2.
+
+Definition msg_at (buf : bytes) (h : header) (q : query) (rrs : list rr) : Prop :=
+  hdr_at buf h /\ h_qd h = 1 /\
+  exists d ql e,
+    name_at buf d 12 ql e /\ (d <= 65)%nat /\ wire ql < 256 /\ text_ok ql /\
+    q_name q = join_dots ql /\ rd16 buf e = Some (q_type q) /\ rd16 buf (e + 2) = Some (q_class q) /\
+    (h_rcode h = 0 -> exists eoff, rrs_at buf (e + 4) rrs eoff /\ lenN rrs = h_an h).
+
+Lemma hostsz_256 : dns_MAXHOSTNAMESZ = 256. Proof. reflexivity. Qed.
+Lemma qname_256 : dns_sizeof_query_name = 256. Proof. reflexivity. Qed.
+Lemma rrname_256 : dns_sizeof_rr_name = 256. Proof. reflexivity. Qed.
+
+Lemma rd16_in_range buf off v : rd16 buf off = Some v -> off + 2 <= lenN buf.
+Proof.
+  unfold rd16. destruct (nthN off buf) eqn:E1; [|discriminate].
+  destruct (nthN (off + 1) buf) eqn:E2; [|discriminate]. intros _.
+  apply nthN_in_range in E2. lia.
+Qed.
+
+Lemma rr_unpack_at buf off r off' : rr_at buf off r off' -> rr_unpack buf (lenN buf) off = Ok (r, off').
+Proof.
+  intros (d & labels & e & rdlen & Hn & Hd & Hw & Htxt & Hname & Hty & Hcl & Httl & Hrdl & Hoff & Hin & Hrd).
+  unfold rr_unpack.
+  rewrite (name_unpack_decodes buf d off labels e dns_MAXHOSTNAMESZ dns_sizeof_rr_name Hn Hd)
+    by (rewrite ?hostsz_256, ?rrname_256; lia).
+  destruct (lenN buf <? e + 10) eqn:E1; [lia|].
+  rewrite Hty, Hcl, Httl, Hrdl.
+  destruct (lenN buf <? e + 10 + rdlen) eqn:E2; [lia|].
+  destruct r as [rn rt rc rtl rl rd]. cbn [rr_name rr_type rr_class rr_ttl rr_rdlength rr_rdata] in *.
+  destruct (rt =? dns_TYPE_PTR) eqn:Ety.
+  - destruct Hrd as (pd & pl & pe & Hpn & Hpd & Hpw & Hptxt & Hpe & Hrdata & Hrlen).
+    rewrite (name_unpack_decodes buf pd (e + 10) pl pe dns_MAXHOSTNAMESZ dns_MAXHOSTNAMESZ Hpn Hpd)
+      by (rewrite ?hostsz_256; lia).
+    destruct (e + 10 + rdlen <? pe) eqn:E3; [lia|].
+    unfold text_ok in *. rewrite Htxt, Hptxt. subst. reflexivity.
+  - destruct Hrd as (Hrdata & Hrlen). rewrite Hrdata.
+    unfold text_ok in *. rewrite Htxt. subst. reflexivity.
+Qed.
+
+Lemma rr_at_start buf off r off' : rr_at buf off r off' -> off < lenN buf.
+Proof. intros (d & labels & e & rdlen & Hn & _). eapply name_at_start; exact Hn. Qed.
+
+Lemma rrs_loop_at buf off rrs eoff :
+  rrs_at buf off rrs eoff -> rrs_loop (N.to_nat (lenN rrs)) buf (lenN buf) off = Ok rrs.
+Proof.
+  intros H. induction H as [off | off r off1 rest off2 Hr Hrest IH]; [reflexivity|].
+  cbn [lenN]. rewrite N2Nat.inj_succ. cbn [rrs_loop].
+  pose proof (rr_at_start _ _ _ _ Hr) as Hs.
+  destruct (lenN buf <=? off) eqn:E; [lia|].
+  rewrite (rr_unpack_at _ _ _ _ Hr), IH. reflexivity.
+Qed.
+
+Lemma be16_rd a b : a < 256 -> b < 256 -> forall v, v < 65536 -> [a; b] = be16 v -> a * 256 + b = v.
+Proof.
+  intros Ha Hb v Hv H. unfold be16 in H. injection H as H1 H2. subst a b.
+  Ltac Zify.zify_post_hook ::= Z.div_mod_to_equations. lia.
+Qed.
+
+Lemma takeN_nth {A} (l : list A) k i : i < k -> nthN i (takeN k l) = nthN i l.
+Proof.
+  revert k i. induction l as [|x l IH]; intros k i Hi; cbn [takeN nthN]; [reflexivity|].
+  destruct (k =? 0) eqn:Ek; [lia|]. cbn [nthN].
+  destruct (i =? 0) eqn:E; [reflexivity|]. apply IH. lia.
+Qed.
+
+Lemma header_unpack_at buf h : hdr_at buf h -> header_unpack buf (lenN buf) = Ok h.
+Proof.
+  intros (Hwf & z & Hz & Ht).
+  destruct Hwf as (H1 & H2 & H3 & H4 & H5 & H6 & H7 & H8 & H9 & H10 & H11 & H12).
+  assert (Hnth : forall i, i < 12 -> nthN i buf = nthN i (enc_header_z h z)).
+  { intros i Hi. rewrite <- Ht. symmetry. apply takeN_nth. exact Hi. }
+  assert (Hlen : 12 <= lenN buf).
+  { assert (E : nthN 11 buf = nthN 11 (enc_header_z h z)) by (apply Hnth; lia).
+    unfold enc_header_z, be16 in E. cbn [app nthN N.eqb N.pred Pos.pred_N Pos.pred_double] in E.
+    apply nthN_in_range in E. lia. }
+  unfold header_unpack. destruct (lenN buf <? 12) eqn:E; [lia|].
+  unfold rd16.
+  rewrite !Hnth by lia.
+  unfold enc_header_z, be16.
+  cbn [app nthN N.eqb N.pred N.add Pos.add Pos.succ Pos.pred_N Pos.pred_double].
+  destruct h as [id qr op aa tc rd ra rc qd an ns ar].
+  cbn [h_id h_qr h_opcode h_aa h_tc h_rd h_ra h_rcode h_qd h_an h_ns h_ar] in *.
+  f_equal.
+  Ltac Zify.zify_post_hook ::= Z.div_mod_to_equations.
+  f_equal; lia.
+Qed.
+
+Theorem message_unpack_at : forall buf h q rrs,
+  msg_at buf h q rrs ->
+  message_unpack buf = Ok (if h_rcode h =? 0 then UAnswers h q rrs else URcode h q).
+Proof.
+  intros buf h q rrs (Hh & Hqd & d & ql & e & Hn & Hd & Hw & Htxt & Hqn & Hqt & Hqc & Hrrs).
+  unfold message_unpack. rewrite (header_unpack_at _ _ Hh).
+  rewrite Hqd. cbn [N.eqb Pos.eqb negb].
+  unfold query_unpack.
+  rewrite (name_unpack_decodes buf d 12 ql e dns_MAXHOSTNAMESZ dns_sizeof_query_name Hn Hd)
+    by (rewrite ?hostsz_256, ?qname_256; lia).
+  pose proof (rd16_in_range _ _ _ Hqc) as Hin.
+  destruct (lenN buf <? e + 4) eqn:E1; [lia|].
+  rewrite Hqt, Hqc.
+  assert (Hq : mkQ (cstr (join_dots ql)) (q_type q) (q_class q) = q).
+  { unfold text_ok in Htxt. rewrite Htxt. destruct q; cbn in *; subst; reflexivity. }
+  rewrite Hq.
+  destruct (h_rcode h =? 0) eqn:Erc; cbn [negb]; [|reflexivity].
+  destruct Hrrs as (eoff & Hat & Hlen); [lia|].
+  destruct (h_an h =? 0) eqn:Ean.
+  - destruct rrs; [reflexivity|cbn [lenN] in Hlen; lia].
+  - rewrite <- Hlen. rewrite (rrs_loop_at _ _ _ _ Hat).
+    destruct rrs; [cbn [lenN] in Hlen; lia|reflexivity].
+Qed.
+
+(* ================= Part C2: the reference encoders produce such layouts ================= *)
+Definition labels_wf (labels : list bytes) : Prop := Forall (fun l => 1 <= lenN l /\ lenN l <= 63) labels.
+
+Lemma lenN_be16 v : lenN (be16 v) = 2. Proof. reflexivity. Qed.
+Lemma lenN_be32 v : lenN (be32 v) = 4. Proof. reflexivity. Qed.
+
+Lemma lenN_enc_labels labels : lenN (enc_labels labels) = wire labels.
+Proof.
+  induction labels as [|l r IH]; [reflexivity|].
+  cbn [enc_labels wire lenN]. rewrite lenN_app, IH. lia.
+Qed.
+
+Lemma lenN_enc_name labels : lenN (enc_name labels) = wire labels + 1.
+Proof. unfold enc_name. rewrite lenN_app, lenN_enc_labels. reflexivity. Qed.
+
+Lemma nthN_at {A} (buf a : list A) x b off : buf = a ++ x :: b -> off = lenN a -> nthN off buf = Some x.
+Proof.
+  intros -> ->. rewrite nthN_app_r by lia. rewrite N.sub_diag. reflexivity.
+Qed.
+
+Lemma rd_range_at buf a d b off n : buf = a ++ d ++ b -> off = lenN a -> n = lenN d -> rd_range buf off n = Some d.
+Proof.
+  intros -> -> ->. unfold rd_range. rewrite !lenN_app.
+  destruct (lenN a + lenN d <=? lenN a + (lenN d + lenN b)) eqn:E; [|lia].
+  rewrite dropN_app_len, takeN_app_len. reflexivity.
+Qed.
+
+Lemma rd16_at buf a v b off : buf = a ++ be16 v ++ b -> off = lenN a -> v < 65536 -> rd16 buf off = Some v.
+Proof.
+  intros -> -> Hv. unfold rd16.
+  rewrite (nthN_at _ a ((v / 256) mod 256) (v mod 256 :: b) (lenN a)) by reflexivity.
+  rewrite (nthN_at _ (a ++ [(v / 256) mod 256]) (v mod 256) b (lenN a + 1)).
+  - f_equal. Ltac Zify.zify_post_hook ::= Z.div_mod_to_equations. lia.
+  - rewrite <- app_assoc. reflexivity.
+  - rewrite lenN_app. reflexivity.
+Qed.
+
+Lemma rd32_at buf a v b off : buf = a ++ be32 v ++ b -> off = lenN a -> v < 4294967296 -> rd32 buf off = Some v.
+Proof.
+  intros -> -> Hv. unfold rd32, be32.
+  rewrite (rd16_at _ a ((v / 65536) mod 65536) (be16 (v mod 65536) ++ b) (lenN a)).
+  - rewrite (rd16_at _ (a ++ be16 ((v / 65536) mod 65536)) (v mod 65536) b (lenN a + 2)).
+    + f_equal. Ltac Zify.zify_post_hook ::= Z.div_mod_to_equations. lia.
+    + rewrite <- !app_assoc. reflexivity.
+    + rewrite lenN_app, lenN_be16. reflexivity.
+    + apply N.mod_lt. discriminate.
+  - rewrite <- !app_assoc. reflexivity.
+  - reflexivity.
+  - apply N.mod_lt. discriminate.
+Qed.
+
+Lemma name_at_enc_labels : forall labels buf pre post,
+  labels_wf labels ->
+  buf = pre ++ enc_labels labels ++ 0 :: post ->
+  name_at buf 0 (lenN pre) labels (lenN pre + wire labels + 1).
+Proof.
+  induction labels as [|l r IH]; intros buf pre post Hwf Hbuf.
+  - cbn [enc_labels app wire] in *. replace (lenN pre + 0 + 1) with (lenN pre + 1) by lia.
+    apply na_root. eapply nthN_at; [exact Hbuf|reflexivity].
+  - inversion Hwf as [|? ? [Hl1 Hl2] Hwf']; subst.
+    cbn [enc_labels wire].
+    apply na_label; try assumption.
+    + eapply nthN_at; [|reflexivity]. cbn [app]. reflexivity.
+    + apply (rd_range_at _ (pre ++ [lenN l]) l (enc_labels r ++ 0 :: post)).
+      * cbn [app]. rewrite <- !app_assoc. cbn [app]. reflexivity.
+      * rewrite lenN_app. reflexivity.
+      * reflexivity.
+    + replace (lenN pre + (lenN l + 1 + wire r) + 1) with (lenN (pre ++ lenN l :: l) + wire r + 1)
+        by (rewrite lenN_app; cbn [lenN]; lia).
+      replace (lenN pre + 1 + lenN l) with (lenN (pre ++ lenN l :: l)) by (rewrite lenN_app; cbn [lenN]; lia).
+      apply (IH _ (pre ++ lenN l :: l) post Hwf').
+      cbn [app]. rewrite <- !app_assoc. cbn [app]. reflexivity.
+Qed.
+
+Lemma name_at_enc_name labels buf pre post :
+  labels_wf labels -> buf = pre ++ enc_name labels ++ post ->
+  name_at buf 0 (lenN pre) labels (lenN pre + lenN (enc_name labels)).
+Proof.
+  intros Hwf ->. rewrite lenN_enc_name. rewrite N.add_assoc.
+  apply (name_at_enc_labels labels _ pre post Hwf).
+  unfold enc_name. rewrite <- app_assoc. reflexivity.
+Qed.
+
+(* a record as the reference encoder sees it *)
+Record rrspec := mkRS {
+  rs_compress : bool;        (* emit the owner name as a pointer to the question name (offset 12) *)
+  rs_owner : list bytes; rs_type : N; rs_class : N; rs_ttl : N;
+  rs_target : list bytes;    (* rdata of a PTR record: a domain name *)
+  rs_data : bytes }.         (* rdata of any other record (A, AAAA, CNAME, ...): opaque octets *)
+
+Definition enc_rdata (r : rrspec) : bytes :=
+  if rs_type r =? dns_TYPE_PTR then enc_name (rs_target r) else rs_data r.
+
+Definition enc_rr (r : rrspec) : bytes :=
+  (if rs_compress r then [192; 12] else enc_name (rs_owner r)) ++
+  be16 (rs_type r) ++ be16 (rs_class r) ++ be32 (rs_ttl r) ++ be16 (lenN (enc_rdata r)) ++ enc_rdata r.
+
+Definition dec_rr (r : rrspec) : rr :=
+  mkRR (join_dots (rs_owner r)) (rs_type r) (rs_class r) (rs_ttl r)
+       (if rs_type r =? dns_TYPE_PTR then wire (rs_target r) else lenN (rs_data r))
+       (if rs_type r =? dns_TYPE_PTR then join_dots (rs_target r) else rs_data r).
+
+Definition rr_wf (ql : list bytes) (r : rrspec) : Prop :=
+  labels_wf (rs_owner r) /\ wire (rs_owner r) < 256 /\ text_ok (rs_owner r) /\
+  rs_type r < 65536 /\ rs_class r < 65536 /\ rs_ttl r < 4294967296 /\
+  (rs_compress r = true -> rs_owner r = ql /\ ql <> []) /\
+  if rs_type r =? dns_TYPE_PTR
+  then labels_wf (rs_target r) /\ wire (rs_target r) < 256 /\ text_ok (rs_target r)
+  else lenN (rs_data r) < 65536.
+
+Definition enc_msg (h : header) (z : N) (ql : list bytes) (qt qc : N) (rrs : list rrspec) (trailer : bytes) : bytes :=
+  enc_header_z h z ++ enc_name ql ++ be16 qt ++ be16 qc ++ concat (map enc_rr rrs) ++ trailer.
+
+Lemma rr_at_enc buf ql qe r pre post :
+  name_at buf 0 12 ql qe -> rr_wf ql r ->
+  buf = pre ++ enc_rr r ++ post ->
+  rr_at buf (lenN pre) (dec_rr r) (lenN pre + lenN (enc_rr r)).
+Proof.
+  intros Hq (Hwf & Hw & Htxt & Hty & Hcl & Httl & Hcomp & Hrd) Hbuf.
+  set (o := if rs_compress r then [192; 12] else enc_name (rs_owner r)) in *.
+  assert (Hbuf' : buf = pre ++ o ++ be16 (rs_type r) ++ be16 (rs_class r) ++ be32 (rs_ttl r) ++
+                        be16 (lenN (enc_rdata r)) ++ enc_rdata r ++ post).
+  { rewrite Hbuf. unfold enc_rr. fold o. rewrite <- !app_assoc. reflexivity. }
+  assert (Hlen : lenN (enc_rr r) = lenN o + 10 + lenN (enc_rdata r)).
+  { unfold enc_rr. fold o. rewrite !lenN_app, !lenN_be16, lenN_be32. lia. }
+  assert (Hname : exists d, name_at buf d (lenN pre) (rs_owner r) (lenN pre + lenN o) /\ (d <= 65)%nat).
+  { subst o. destruct (rs_compress r) eqn:Ec.
+    - destruct (Hcomp eq_refl) as [Heq Hne]. exists 1%nat. split; [|lia].
+      replace (lenN pre + lenN [192; 12]) with (lenN pre + 2) by reflexivity.
+      apply (na_ptr true buf 0 (lenN pre) 192 12 (rs_owner r) qe).
+      + eapply nthN_at; [exact Hbuf'|reflexivity].
+      + reflexivity.
+      + apply (nthN_at buf (pre ++ [192]) 12 (be16 (rs_type r) ++ be16 (rs_class r) ++ be32 (rs_ttl r) ++
+                        be16 (lenN (enc_rdata r)) ++ enc_rdata r ++ post)).
+        * rewrite Hbuf'. rewrite <- app_assoc. reflexivity.
+        * rewrite lenN_app. reflexivity.
+      + intros _. rewrite Heq. exact Hne.
+      + rewrite Heq. exact Hq.
+    - exists 0%nat. split; [|lia]. apply (name_at_enc_name _ _ pre _ Hwf Hbuf'). }
+  destruct Hname as (d & Hn & Hd).
+  assert (Hrdl : lenN (enc_rdata r) < 65536).
+  { unfold enc_rdata. destruct (rs_type r =? dns_TYPE_PTR); [|exact Hrd].
+    destruct Hrd as (_ & Hw2 & _). rewrite lenN_enc_name. lia. }
+  exists d, (rs_owner r), (lenN pre + lenN o), (lenN (enc_rdata r)).
+  split; [exact Hn|]. split; [exact Hd|]. split; [exact Hw|]. split; [exact Htxt|]. split; [reflexivity|].
+  cbn [dec_rr rr_type rr_class rr_ttl rr_rdata rr_rdlength].
+  split. { apply (rd16_at buf (pre ++ o) _ (be16 (rs_class r) ++ be32 (rs_ttl r) ++ be16 (lenN (enc_rdata r)) ++ enc_rdata r ++ post));
+           [rewrite Hbuf', <- !app_assoc; reflexivity|rewrite lenN_app; reflexivity|exact Hty]. }
+  split. { apply (rd16_at buf ((pre ++ o) ++ be16 (rs_type r)) _ (be32 (rs_ttl r) ++ be16 (lenN (enc_rdata r)) ++ enc_rdata r ++ post));
+           [rewrite Hbuf', <- !app_assoc; reflexivity|rewrite !lenN_app, lenN_be16; lia|exact Hcl]. }
+  split. { apply (rd32_at buf (((pre ++ o) ++ be16 (rs_type r)) ++ be16 (rs_class r)) _ (be16 (lenN (enc_rdata r)) ++ enc_rdata r ++ post));
+           [rewrite Hbuf', <- !app_assoc; reflexivity|rewrite !lenN_app, !lenN_be16; lia|exact Httl]. }
+  split. { apply (rd16_at buf ((((pre ++ o) ++ be16 (rs_type r)) ++ be16 (rs_class r)) ++ be32 (rs_ttl r)) _ (enc_rdata r ++ post));
+           [rewrite Hbuf', <- !app_assoc; reflexivity|rewrite !lenN_app, !lenN_be16, lenN_be32; lia|exact Hrdl]. }
+  split; [lia|].
+  split. { rewrite Hbuf. rewrite !lenN_app. lia. }
+  set (pre5 := ((((pre ++ o) ++ be16 (rs_type r)) ++ be16 (rs_class r)) ++ be32 (rs_ttl r)) ++ be16 (lenN (enc_rdata r))).
+  assert (Hbuf5 : buf = pre5 ++ enc_rdata r ++ post).
+  { subst pre5. rewrite Hbuf', <- !app_assoc. reflexivity. }
+  assert (Hoff5 : lenN pre + lenN o + 10 = lenN pre5).
+  { subst pre5. rewrite !lenN_app, !lenN_be16, lenN_be32. lia. }
+  unfold enc_rdata in *.
+  destruct (rs_type r =? dns_TYPE_PTR) eqn:Ety.
+  - destruct Hrd as (Hwf2 & Hw2 & Htxt2).
+    exists 0%nat, (rs_target r), (lenN pre5 + lenN (enc_name (rs_target r))).
+    split. { rewrite Hoff5. apply (name_at_enc_name _ _ pre5 post Hwf2 Hbuf5). }
+    split; [lia|]. split; [exact Hw2|]. split; [exact Htxt2|]. split; [lia|]. split; reflexivity.
+  - split; [|reflexivity]. apply (rd_range_at buf pre5 (rs_data r) post); [exact Hbuf5|lia|reflexivity].
+Qed.
+
+Lemma rrs_at_enc buf ql qe : name_at buf 0 12 ql qe ->
+  forall rrs pre post, Forall (rr_wf ql) rrs ->
+  buf = pre ++ concat (map enc_rr rrs) ++ post ->
+  rrs_at buf (lenN pre) (map dec_rr rrs) (lenN pre + lenN (concat (map enc_rr rrs))).
+Proof.
+  intros Hq. induction rrs as [|r rest IH]; intros pre post Hwf Hbuf.
+  - cbn [map concat lenN]. rewrite N.add_0_r. constructor.
+  - inversion Hwf as [|? ? Hr Hrest]; subst.
+    cbn [map concat]. rewrite lenN_app, N.add_assoc.
+    apply rrs_at_cons with (off1 := lenN pre + lenN (enc_rr r)).
+    + apply (rr_at_enc _ ql qe r pre (concat (map enc_rr rest) ++ post) Hq Hr).
+      cbn [map concat]. rewrite <- !app_assoc. reflexivity.
+    + rewrite <- lenN_app. apply (IH (pre ++ enc_rr r) post Hrest).
+      cbn [map concat]. rewrite <- !app_assoc. reflexivity.
+Qed.
+
+Lemma lenN_enc_header_z h z : lenN (enc_header_z h z) = 12. Proof. reflexivity. Qed.
+
+Theorem enc_msg_decodes : forall h z ql qt qc rrs trailer,
+  header_wf h -> z < 8 -> h_qd h = 1 -> h_an h = lenN rrs ->
+  labels_wf ql -> wire ql < 256 -> text_ok ql -> qt < 65536 -> qc < 65536 ->
+  Forall (rr_wf ql) rrs ->
+  message_unpack (enc_msg h z ql qt qc rrs trailer) =
+  Ok (if h_rcode h =? 0 then UAnswers h (mkQ (join_dots ql) qt qc) (map dec_rr rrs)
+      else URcode h (mkQ (join_dots ql) qt qc)).
+Proof.
+  intros h z ql qt qc rrs trailer Hh Hz Hqd Han Hwf Hw Htxt Hqt Hqc Hrrs.
+  set (buf := enc_msg h z ql qt qc rrs trailer).
+  assert (Hq : name_at buf 0 12 ql (12 + lenN (enc_name ql))).
+  { change 12 with (lenN (enc_header_z h z)).
+    apply (name_at_enc_name ql buf (enc_header_z h z) (be16 qt ++ be16 qc ++ concat (map enc_rr rrs) ++ trailer) Hwf).
+    reflexivity. }
+  apply message_unpack_at.
+  split.
+  { split; [exact Hh|]. exists z. split; [exact Hz|].
+    subst buf. unfold enc_msg.
+    rewrite <- (lenN_enc_header_z h z) at 1. apply takeN_app_len. }
+  split; [exact Hqd|].
+  exists 0%nat, ql, (12 + lenN (enc_name ql)).
+  split; [exact Hq|]. split; [lia|]. split; [exact Hw|]. split; [exact Htxt|]. split; [reflexivity|].
+  cbn [q_type q_class].
+  split. { apply (rd16_at buf (enc_header_z h z ++ enc_name ql) qt (be16 qc ++ concat (map enc_rr rrs) ++ trailer));
+           [subst buf; unfold enc_msg; rewrite <- !app_assoc; reflexivity|rewrite lenN_app; reflexivity|exact Hqt]. }
+  split. { apply (rd16_at buf ((enc_header_z h z ++ enc_name ql) ++ be16 qt) qc (concat (map enc_rr rrs) ++ trailer));
+           [subst buf; unfold enc_msg; rewrite <- !app_assoc; reflexivity|rewrite !lenN_app, lenN_be16; cbn [lenN_enc_header_z]; rewrite lenN_enc_header_z; lia|exact Hqc]. }
+  intros _.
+  set (pre := ((enc_header_z h z ++ enc_name ql) ++ be16 qt) ++ be16 qc).
+  assert (Hpre : 12 + lenN (enc_name ql) + 4 = lenN pre).
+  { subst pre. rewrite !lenN_app, !lenN_be16, lenN_enc_header_z. lia. }
+  exists (lenN pre + lenN (concat (map enc_rr rrs))). split.
+  - rewrite Hpre. apply (rrs_at_enc buf ql _ Hq rrs pre trailer Hrrs).
+    subst buf pre. unfold enc_msg. rewrite <- !app_assoc. reflexivity.
+  - rewrite Han. clear. induction rrs as [|r rest IH]; [reflexivity|]. cbn [map lenN]. rewrite IH. reflexivity.
+Qed.
+
+(* ================= Part D: a packed query decodes back to itself ================= *)
+Definition nz (c : N) : bool := negb (c =? 0).
+
+Lemma cstr_nz s : forallb nz (cstr s) = true.
+Proof. unfold cstr. apply (span_all nz s). Qed.
+
+Lemma cstr_id s : forallb nz s = true -> cstr s = s.
+Proof.
+  unfold cstr. induction s as [|c r IH]; intros H; [reflexivity|].
+  cbn [forallb] in H. apply andb_prop in H as [Hc Hr].
+  cbn [span]. fold nz. rewrite Hc. specialize (IH Hr).
+  destruct (span (fun c0 : N => negb (c0 =? 0)) r) as [a b] eqn:E. cbn [fst] in *. rewrite IH. reflexivity.
+Qed.
+
+Lemma forallb_app' {A} (p : A -> bool) a b : forallb p (a ++ b) = forallb p a && forallb p b.
+Proof. induction a as [|x a IH]; cbn [app forallb]; [reflexivity|]. rewrite IH, andb_assoc. reflexivity. Qed.
+
+Lemma tokens_from_props (P : bytes -> Prop) :
+  (forall cur c, P cur -> True) ->
+  forall s cur, True -> True.
+Proof. intros; exact I. Qed.
+
+(* every token is non-empty and made of non-NUL octets (when the string is) *)
+Lemma tokens_from_ok : forall s cur,
+  forallb nz cur = true -> forallb nz s = true ->
+  Forall (fun t => 1 <= lenN t /\ forallb nz t = true) (tokens_from cur s).
+Proof.
+  induction s as [|c r IH]; intros cur Hcur Hs; cbn [tokens_from].
+  - destruct cur as [|x cur']; [constructor|]. constructor; [|constructor].
+    split; [cbn [lenN]; lia|exact Hcur].
+  - cbn [forallb] in Hs. apply andb_prop in Hs as [Hc Hr].
+    destruct (c =? 46) eqn:E.
+    + destruct cur as [|x cur'].
+      * apply IH; [reflexivity|exact Hr].
+      * constructor; [split; [cbn [lenN]; lia|exact Hcur]|]. apply IH; [reflexivity|exact Hr].
+    + apply IH; [|exact Hr]. rewrite forallb_app'. rewrite Hcur. cbn [forallb]. rewrite Hc. reflexivity.
+Qed.
+
+Lemma takeN_min {A} (t : list A) n : takeN (N.min (lenN t) n) t = takeN n t.
+Proof.
+  destruct (N.le_gt_cases (lenN t) n) as [H|H].
+  - rewrite N.min_l by exact H. rewrite !takeN_all by lia. reflexivity.
+  - rewrite N.min_r by lia. reflexivity.
+Qed.
+
+Lemma forallb_takeN {A} (p : A -> bool) (l : list A) n : forallb p l = true -> forallb p (takeN n l) = true.
+Proof.
+  revert n. induction l as [|x l IH]; intros n H; cbn [takeN]; [reflexivity|].
+  destruct (n =? 0); [reflexivity|]. cbn [forallb] in *. apply andb_prop in H as [H1 H2].
+  rewrite H1, (IH _ H2). reflexivity.
+Qed.
+
+Definition cut63 (toks : list bytes) : list bytes := map (takeN dns_MAXLABELSZ) toks.
+
+Lemma labels_pack_enc : forall toks sz off out out' off',
+  labels_pack sz off toks out = Ok (out', off') ->
+  out' = out ++ enc_labels (cut63 toks) /\ off' = off + wire (cut63 toks).
+Proof.
+  induction toks as [|t r IH]; intros sz off out out' off' H; cbn [labels_pack] in H.
+  - injection H as <- <-. cbn [cut63 map enc_labels wire]. rewrite app_nil_r. split; [reflexivity|lia].
+  - destruct (sz <? off); [discriminate|].
+    unfold label_pack in H.
+    destruct (sz - off <? N.min (lenN t) dns_MAXLABELSZ + 1); [discriminate|].
+    apply IH in H as [-> ->].
+    rewrite takeN_min.
+    assert (Hlen : lenN (takeN dns_MAXLABELSZ t) = N.min (lenN t) dns_MAXLABELSZ).
+    { rewrite lenN_takeN. apply N.min_comm. }
+    cbn [cut63 map enc_labels wire lenN]. fold (cut63 r). rewrite Hlen.
+    split.
+    + rewrite <- app_assoc. reflexivity.
+    + rewrite <- Hlen at 1. lia.
+Qed.
+
+Lemma name_pack_enc sz name out off :
+  name_pack sz name = Ok (out, off) ->
+  out = enc_name (cut63 (tokens (cstr name))) /\ off = lenN out.
+Proof.
+  unfold name_pack.
+  destruct (labels_pack sz 0 (tokens (cstr name)) []) as [[o f]| |b] eqn:E; try discriminate.
+  apply labels_pack_enc in E as [-> ->].
+  destruct (sz <=? 0 + wire (cut63 (tokens (cstr name)))); [discriminate|].
+  intros H. injection H as <- <-. cbn [app]. split; [reflexivity|].
+  fold (enc_name (cut63 (tokens (cstr name)))). rewrite lenN_enc_name. lia.
+Qed.
+
+Lemma cut63_wf toks : Forall (fun t => 1 <= lenN t /\ forallb nz t = true) toks ->
+  labels_wf (cut63 toks) /\ Forall (fun t => forallb nz t = true) (cut63 toks).
+Proof.
+  induction 1 as [|t r [H1 H2] Hr [IH1 IH2]]; cbn [cut63 map]; [split; constructor|].
+  split; constructor; try assumption.
+  - rewrite lenN_takeN. unfold dns_MAXLABELSZ. lia.
+  - apply forallb_takeN. exact H2.
+Qed.
+
+Lemma join_dots_nz labels : Forall (fun t => forallb nz t = true) labels -> forallb nz (join_dots labels) = true.
+Proof.
+  induction 1 as [|l r Hl Hr IH]; [reflexivity|].
+  destruct r as [|l2 r]; [exact Hl|].
+  change (join_dots (l :: l2 :: r)) with (l ++ [46] ++ join_dots (l2 :: r)).
+  rewrite !forallb_app', Hl, IH. reflexivity.
+Qed.
+
+(* the labels a host name is packed as: strtok tokens, each cut to 63 octets *)
+Definition host_labels (hostname : bytes) : list bytes := cut63 (tokens (cstr hostname)).
+
+Lemma host_labels_ok hostname : labels_wf (host_labels hostname) /\ text_ok (host_labels hostname).
+Proof.
+  unfold host_labels, tokens.
+  destruct (cut63_wf (tokens_from [] (cstr hostname))) as [H1 H2].
+  { apply tokens_from_ok; [reflexivity|apply cstr_nz]. }
+  split; [exact H1|]. unfold text_ok. apply cstr_id. apply join_dots_nz. exact H2.
+Qed.
+
+Lemma cstr_cstr s : cstr (cstr s) = cstr s.
+Proof. apply cstr_id. apply cstr_nz. Qed.
+
+Definition query_header (qid edns : N) : header := mkHdr qid 0 0 0 0 1 0 0 1 0 0 (if 0 <? edns then 1 else 0).
+
+Theorem build_query_roundtrip : forall sz hostname qid qtype edns msg q,
+  build_query sz hostname qid qtype edns = Ok (msg, q) ->
+  qid < 65536 -> wire (host_labels hostname) < 256 ->
+  q = mkQ (takeN (dns_sizeof_query_name - 1) (cstr hostname)) (qtype mod 65536) dns_CLASS_IN /\
+  message_unpack msg =
+    Ok (UAnswers (query_header qid edns) (mkQ (join_dots (host_labels hostname)) (qtype mod 65536) dns_CLASS_IN) []).
+Proof.
+  intros sz hostname qid qtype edns msg q H Hqid Hw.
+  unfold build_query in H.
+  fold (query_header qid edns) in H.
+  unfold header_pack in H. destruct (sz <? 12); [discriminate|].
+  unfold question_pack in H.
+  destruct (name_pack (sz - 12) (cstr hostname)) as [[nb noff]| |b] eqn:En; try discriminate.
+  apply name_pack_enc in En as [Hnb Hnoff]. rewrite cstr_cstr in Hnb. fold (host_labels hostname) in Hnb.
+  destruct (sz - 12 <? noff + 4); [discriminate|].
+  destruct (host_labels_ok hostname) as [Hwf Htxt].
+  assert (Hdec : forall tail,
+    message_unpack (enc_msg (query_header qid edns) 0 (host_labels hostname) (qtype mod 65536) dns_CLASS_IN [] tail) =
+    Ok (UAnswers (query_header qid edns) (mkQ (join_dots (host_labels hostname)) (qtype mod 65536) dns_CLASS_IN) [])).
+  { intros tail.
+    rewrite (enc_msg_decodes (query_header qid edns) 0 (host_labels hostname) (qtype mod 65536) dns_CLASS_IN [] tail);
+      try assumption; try reflexivity; try (constructor; fail).
+    - unfold header_wf, query_header. cbn [h_id h_qr h_opcode h_aa h_tc h_rd h_ra h_rcode h_qd h_an h_ns h_ar].
+      destruct (0 <? edns); lia.
+    - apply N.mod_lt. discriminate. }
+  assert (Hshape : forall tail,
+    (be16 (h_id (query_header qid edns)) ++
+       be16 (h_qr (query_header qid edns) * 32768 + h_opcode (query_header qid edns) * 2048 +
+             h_aa (query_header qid edns) * 1024 + h_tc (query_header qid edns) * 512 +
+             h_rd (query_header qid edns) * 256 + h_ra (query_header qid edns) * 128 + h_rcode (query_header qid edns)) ++
+       be16 (h_qd (query_header qid edns)) ++ be16 (h_an (query_header qid edns)) ++
+       be16 (h_ns (query_header qid edns)) ++ be16 (h_ar (query_header qid edns))) ++
+    (nb ++ be16 (qtype mod 65536) ++ be16 dns_CLASS_IN) ++ tail =
+    enc_msg (query_header qid edns) 0 (host_labels hostname) (qtype mod 65536) dns_CLASS_IN [] tail).
+  { intros tail. unfold enc_msg. rewrite Hnb. cbn [map concat app]. rewrite <- !app_assoc. reflexivity. }
+  destruct (0 <? edns) eqn:Ee.
+  - destruct (opt_pack (sz - (12 + lenN (nb ++ be16 (qtype mod 65536) ++ be16 dns_CLASS_IN))) edns) as [ob| |b];
+      try discriminate.
+    destruct (sz <? 12 + lenN (nb ++ be16 (qtype mod 65536) ++ be16 dns_CLASS_IN) + lenN ob); [discriminate|].
+    injection H as <- <-. split; [reflexivity|].
+    rewrite <- (Hdec ob). f_equal. rewrite <- Hshape. rewrite <- !app_assoc. reflexivity.
+  - destruct (sz <? 12 + lenN (nb ++ be16 (qtype mod 65536) ++ be16 dns_CLASS_IN)); [discriminate|].
+    injection H as <- <-. split; [reflexivity|].
+    rewrite <- (Hdec []). f_equal. rewrite <- Hshape. rewrite <- !app_assoc. rewrite ?app_nil_r. reflexivity.
 Qed.
